@@ -16,6 +16,10 @@
     - transaction ids are fresh numbers (96 random bits in C: distinct ids is the RNG assumption of C14), so an answer
       names the item it could match ([i]) and the transaction id it carries ([t]); an id that is not the item's current one,
       or that the item's StunAgent no longer remembers ([d_live], sent_ids[].valid), has no effect at all;
+    - "request could not be created or sent" ([fails], an input of every tick) stands for every reason the C code has for
+      `buffer_len > 0 && agent_socket_send (...) >= 0` to be false: socket error, message does not fit, and the table of 200 saved
+      transaction ids of the item's StunAgent being full (an alternate-server answer for one TURN item cancels its siblings'
+      requests without forgetting their ids);
     - [EvCand i] = a success answer was consumed for item [i] and its address handed to discovery_add_*_candidate
       (what the candidate list then keeps is Agent.GatherModel).
     No proofs in this file. *)
